@@ -109,8 +109,9 @@ Definition generate_a_indptr (n : nat) (sidx : list nat) : rres (list nat) :=
   end.
 
 (* unsorted pairs: sp.coo_matrix((arange(L), (s_indices, a_indices))).tocsr(); sort_indices()
-   = stable sort of the triples (s, a, original position) by (s, a); the shape is
-   inferred, so indptr has max(s)+2 entries *)
+   = stable sort of the triples (s, a, original position) by (s, a).  Since commit d7690eb
+   the matrix is built with shape=(num_states, max(a)+1), so indptr has num_states+1
+   entries (the pinned code inferred the shape: max(s)+2 entries, see Findings.v) *)
 Definition trip_ltb (p q : nat * nat * nat) : bool :=
   let '(s1, a1, _) := p in let '(s2, a2, _) := q in
   (s1 <? s2)%nat || ((s1 =? s2)%nat && (a1 <? a2)%nat).
@@ -134,8 +135,8 @@ Fixpoint zip3 (s a : list nat) (i : nat) : list (nat * nat * nat) :=
   end.
 Definition count_lt (sidx : list nat) (i : nat) : nat :=
   length (filter (fun s => (s <? i)%nat) sidx).
-Definition csr_indptr (sidx : list nat) : list nat :=
-  map (count_lt sidx) (seq 0 (list_max sidx + 2)).
+Definition csr_indptr (n : nat) (sidx : list nat) : list nat :=
+  map (count_lt sidx) (seq 0 (S n)).
 
 (* for i in range(num_states): for j in range(a_indptr[i], a_indptr[i+1]): _s_indices[j] = i
    (pure Python on a numpy array: a_indptr[i+1] beyond the end raises IndexError) *)
@@ -233,7 +234,8 @@ Definition finish_ctor (n : nat) (sidx aidx indptr : list nat) (R : list (ext T)
   else COk (mkDDP n sidx aidx indptr R Q beta prod).
 
 (* DiscreteDP(R, Q, beta, s_indices, a_indices) *)
-Definition mk_sa (n : nat) (sidx aidx : list nat) (R : list (ext T)) (Q : list (list T)) (beta : T)
+Definition mk_sa_gen (csr : nat -> list nat -> list nat)
+           (n : nat) (sidx aidx : list nat) (R : list (ext T)) (Q : list (list T)) (beta : T)
   : cres (ddp T) :=
   if negb (shapes_ok n sidx aidx R Q) then CUnmodelled
   else if has_sorted_sa_indices sidx aidx then
@@ -246,7 +248,7 @@ Definition mk_sa (n : nat) (sidx aidx : list nat) (R : list (ext T)) (Q : list (
     let tr := trip_sort (zip3 sidx aidx 0) in
     if trip_has_dup tr then CUnmodelled
     else
-      let indptr := csr_indptr sidx in
+      let indptr := csr n sidx in
       let perm := map (fun t => snd t) tr in
       let aidx' := map (fun t => snd (fst t)) tr in
       let R' := map (gete R) perm in
@@ -256,6 +258,8 @@ Definition mk_sa (n : nat) (sidx aidx : list nat) (R : list (ext T)) (Q : list (
       | ROob i => CIndexError i
       | RFuel => CUnmodelled
       end.
+
+Definition mk_sa := mk_sa_gen csr_indptr.
 
 (* DiscreteDP(R, Q, beta) with R of shape (n, m), Q of shape (n, m, n) *)
 Definition mk_prod (n m : nat) (R : list (list (ext T))) (Q : list (list (list T))) (beta : T)
